@@ -134,7 +134,7 @@ def spy_call(g, expect, inp, seconds, **kw):
             except AttributeError:
                 pass
     return {'k': k, 'exc': v if k == 'raise' else None, 'entered': cap['entered'], 'inner': cap['exc'],
-            'observable': has_check}
+            'observable': has_check, 'value': v if k == 'return' else None}
 
 
 # ------------------------------------------------------------------------------------------------ instruments
@@ -183,10 +183,11 @@ def fixtures():
             entry = self.config['table'].get(key, 0)
             if isinstance(entry, tuple) and entry[0] == 'raise':
                 raise entry[1]
+            entry, msg = entry if isinstance(entry, tuple) else (entry, '')
             if isinstance(student_input, list):
-                return {'overall_message': '', 'input_list': [{'ok': bool(entry), 'grade_decimal': entry, 'msg': ''}
-                                                              for _ in student_input]}
-            return {'ok': bool(entry), 'grade_decimal': entry, 'msg': ''}
+                return {'overall_message': msg, 'input_list': [{'ok': bool(entry), 'grade_decimal': entry, 'msg': ''}
+                                                               for _ in student_input]}
+            return {'ok': bool(entry), 'grade_decimal': entry, 'msg': msg}
 
     classes = {}
 
@@ -248,7 +249,13 @@ class NoConcreteInput(Exception):
     """the model state has no known concrete realisation (skipped, not a drift)"""
 
 
-def build_case(c, fault, infer_fault, origin=None):
+# feedback messages of ErrorChannel!ResultMsgs: author's text that breaks naive templating (LaTeX, format fields, ...)
+RESULT_MSG = {'none': '', 'plain': 'Well done.', 'fmt0': 'see {0} and {1}', 'fmtx': 'with \\(a_{x}\\) and \\(e^{i\\pi}\\)',
+              'pcts': '100%s sure', 'pctmap': 'rate %(a)s %d', 'bslash': 'a\\b \\n', 'lbrace': 'open { only',
+              'rbrace': 'close } only', 'braces': '\\(\\frac{1}{2}\\) {}', 'nl': 'line one\nline two'}
+
+
+def build_case(c, fault, infer_fault, origin=None, returned=None):
     """abstract case -> (grader, expect, input object, kwargs, submitted texts, input text of the generic message)
     fault: exception instance raised by the grading step (or None: it returns)"""
     from mitxgraders import ListGrader, FormulaGrader, MatrixGrader, SumGrader, LinearCredit
@@ -260,10 +267,12 @@ def build_case(c, fault, infer_fault, origin=None):
     if c['credit'] != 'off':
         cfg['attempt_based_credit'] = LinearCredit()
         if c['credit'] == 'on':
-            kw['attempt'] = 2
+            kw['attempt'] = c.get('attempt', 2)
     names = ['in%d' % i for i in range(1, n + 1)]
     expect = None
     hit = ('raise', fault) if fault is not None else 1
+    if fault is None and returned is not None and 'rmsg' in returned:
+        hit = (1 if returned['credited'] else 0, RESULT_MSG[returned['rmsg']])
 
     if gk == 'item':
         if c['answers']:
@@ -391,6 +400,15 @@ def judge(st, obs, g, inp, ex):
                     drift.append('%s %s %s: message shape %s, model %s' % (c['gk'], trail[-1], esc['cls'], syms, m['s']))
             elif m['t'] == 'generic' and str(e) != generic_text(inp):
                 drift.append('generic message wording: %r' % str(e))
+    if expected_return and obs['k'] == 'return' and 'rmsg' in inner and isinstance(obs.get('value'), dict):
+        r = obs['value']
+        blob = '|'.join([str(r.get('overall_message', '')), str(r.get('msg', ''))] +
+                        [str(x.get('msg', '')) for x in r.get('input_list', [])])
+        if RESULT_MSG[inner['rmsg']].replace('\n', '<br/>\n') not in blob:
+            drift.append('%s: the feedback message %r is not in the returned result' % (c['gk'], RESULT_MSG[inner['rmsg']]))
+        if ('Maximum credit for attempt' in blob) != st['ret']['noted']:
+            drift.append('%s attempt %s credited %s: attempt-credit note %s, model %s' % (
+                c['gk'], c.get('attempt'), inner['credited'], 'Maximum credit for attempt' in blob, st['ret']['noted']))
     if obs['observable'] and obs['entered'] != ('check' in trail):
         drift.append('%s: check entered %s, model trail %s' % (c['gk'], obs['entered'], trail))
     if c['gk'] in ('item', 'singlelist') and bool(g.__dict__.get('infer_calls')) != ('infer' in trail):
@@ -432,7 +450,7 @@ def replay_states(states, extra):
             else:
                 fault = ex
         try:
-            g, expect, inp, kw, names = build_case(c, fault, infer_fault, origin)
+            g, expect, inp, kw, names = build_case(c, fault, infer_fault, origin, inner if inner.get('k') == 'return' else None)
         except NoConcreteInput:
             continue
         except Exception as e:  # noqa -- the instrument could not be built: machinery, reported by run()
@@ -449,6 +467,7 @@ def replay_states(states, extra):
             if len(bad) < 60:
                 bad.append({'class': cls, 'kind': c['gk'], 'form': c['form'], 'debug': c['debug'], 'n': c['n'],
                             'variant': c['v'], 'expect': c['expect'], 'answers': c['answers'], 'credit': c['credit'],
+                            'attempt': c.get('attempt', 0), 'result': [inner.get('credited'), inner.get('rmsg')],
                             'raised_inside': src.get('cls', 'none'), 'source': src.get('src', ''),
                             'message': injected, 'at': trail[-1],
                             'model_escape': st['esc'].get('cls', 'return'), 'observed': describe(obs), 'what': text})
@@ -516,11 +535,35 @@ def at_array_grader():
 _AT_ARRAY = {}
 
 
+# ten paddings of a short fragment (selected by the position of the "spelling"): %s is the fragment
+AT_PAD = ['      %s', '%s      ', '   %s   ', '\t\t%s\t\t\t', '\n\n\n%s\n\n', ' \t\n%s\r\n ', '%s\n\n\n\n\n', '\r\n\r\n%s\r\n',
+          '    \t%s', ' %s    \n']
+AT_SHORT_INTERVALS = ['', '[', '(,)', '[1,]', '[,2)', '1,2', '(]', '[1', ',', '[12]']
+AT_PADDED = {
+    'intervalShort': lambda i: AT_PAD[i] % AT_SHORT_INTERVALS[i],
+    'listBlankPadded': lambda i: 'a,' + AT_PAD[i] % '',
+    'stringShortPadded': lambda i: AT_PAD[i] % ['', 'a', 'ab', 'abc', '', 'a b', 'x', '', 'ab', 'a'][i],
+}
+
+
 def at_other(sit, sp):
     """an anticipated problem outside the formula language -> (grader, input, requirement)"""
-    from mitxgraders import IntervalGrader, SumGrader, SingleListGrader, StringGrader
+    from mitxgraders import IntervalGrader, SumGrader, SingleListGrader, StringGrader, ListGrader
     if sit in AT_ARRAY:
         return at_array_grader(), AT_ARRAY[sit][sorted(AT_SPELL).index(sp)], 'single'
+    if sit in AT_PADDED:
+        i = sorted(AT_SPELL).index(sp)
+        t = AT_PADDED[sit](i)
+        if sit == 'intervalShort':
+            if i % 3 == 0:
+                return IntervalGrader(answers='[1,2]'), t, 'single'
+            if i % 3 == 1:
+                return IntervalGrader(answers=['{', '1', '2', '>'], opening_brackets='{[', closing_brackets='>]',
+                                      delimiter=';'), t, 'single'
+            return ListGrader(answers=['[1,2]', '(3,4)'], subgraders=IntervalGrader(), ordered=True), ['[1,2]', t], 'multi'
+        if sit == 'listBlankPadded':
+            return SingleListGrader(answers=['a', 'b'], subgrader=StringGrader()), t, 'single'
+        return StringGrader(accept_any=True, min_length=6, explain_minimums='err'), t, 'single'
     t = AT_SPELL[sp]
     if sit == 'intervalOpen':
         return IntervalGrader(answers='[1,2]'), t[0] + '1,2]', 'single'
@@ -913,6 +956,21 @@ def real_graders(debug):
     G['shared-inner'] = (inner, 'multi', 2, None)
     G['shared-outer'] = (ListGrader(answers=[['1', 'x'], ['2', '3']], grouping=[1, 1, 2, 2], debug=True,
                                     subgraders=inner), 'multi', 4, None)
+    # attempt-based credit (post-processing AFTER the try block) over results whose feedback is hostile to templating
+    from mitxgraders import LinearCredit, ReciprocalCredit, GeometricCredit
+    hostile_msgs = [RESULT_MSG[k] for k in sorted(RESULT_MSG) if k != 'none']
+    G['credit-string'] = (StringGrader(answers=tuple({'expect': 'ans%d' % i, 'msg': m, 'grade_decimal': 1 if i % 2 else 0.5}
+                                                     for i, m in enumerate(hostile_msgs)),
+                                       wrong_msg='no: {0} %s \\(x_{1}\\)', attempt_based_credit=LinearCredit(), debug=debug),
+                          'single', 0, None)
+    G['credit-formula'] = (form(answers=({'expect': 'x^2', 'msg': '\\(\\frac{x^2}{1}\\) {0}'},
+                                         {'expect': 'x^2/2', 'msg': 'half: {x^2} %d', 'grade_decimal': 0.5}),
+                                attempt_based_credit=ReciprocalCredit(), debug=debug), 'single', 0, None)
+    G['credit-singlelist'] = (SingleListGrader(answers=[{'expect': '1', 'msg': 'one {1}'}, {'expect': 'x', 'msg': '\\(a_{1}\\)\n%s'}],
+                                               subgrader=form(), attempt_based_credit=GeometricCredit(), debug=debug),
+                              'single', 0, ',')
+    G['credit-list'] = (ListGrader(answers=[{'expect': '1', 'msg': '{}'}, {'expect': 'x', 'msg': 'b_{2} {'}],
+                                   subgraders=form(), attempt_based_credit=LinearCredit(), debug=debug), 'multi', 2, None)
     # unconfigured item graders: the answer is inferred from the expect value of every call (hostile as well)
     G['infer-formula'] = (form(debug=debug), 'single', 0, None)
     G['infer-numerical'] = (NumericalGrader(debug=debug), 'single', 0, None)
@@ -926,6 +984,9 @@ def real_graders(debug):
 
 
 CONFIGURED_DEBUG = {'shared-parent': True, 'shared-outer': True}      # debug flag these objects were built with
+# submissions that earn (part of the) credit of the attempt-credit graders
+CREDITED = {'credit-string': ['ans%d' % i for i in range(10)], 'credit-formula': ['x^2', 'x^2/2', 'x*x', ' x ^ 2 / 2'],
+            'credit-singlelist': ['1,x', 'x,1', '1,2', '3,x'], 'credit-list': [['1', 'x'], ['x', '1'], ['1', '5'], ['7', 'x']]}
 PRELUDE = {'shared-child': 'shared-parent', 'shared-inner': 'shared-outer', 'shared-leaf': 'shared-outer'}
 
 
@@ -1058,6 +1119,12 @@ def observe_chunk(items, extra):
                 if not isinstance(expect, str):
                     expect = '1'
                 expect = cap_items(expect)
+            kw = {}
+            if gid in CREDITED:
+                kw['attempt'] = rng.choice([1, 2, 2, 3, 4, 7])
+                if rng.random() < 0.6:
+                    cat, inp = 'credited', rng.choice(CREDITED[gid])
+                    form, n = form_of(inp)
             prelude = None
             if gid in PRELUDE:
                 # a history: first a submission to the debugging list problem that shares this object
@@ -1069,13 +1136,14 @@ def observe_chunk(items, extra):
                     spy_call(G[debug][PRELUDE[gid]][0], None, prelude, limit)
                 random.seed(seed * 1000003 + j)
                 np.random.seed((seed * 1000003 + j) % (2 ** 32))
-                res = spy_call(g, expect, inp, limit)
+                res = spy_call(g, expect, inp, limit, **kw)
                 inner, out = outcome_record(res, inp)
                 pair[debug] = (res, inner)
                 recs.append({'ev': 'escape', 'id': 2 * (first + j) + (1 if debug else 2), 'cls': gid, 'cat': cat,
                              'debug': CONFIGURED_DEBUG.get(gid, debug), 'req': req, 'form': form, 'n': n,
                              'checked': res['entered'], 'inferring': expect is not None, 'expect': expect,
                              'after': prelude if prelude is None or _jsonable(prelude) else repr(prelude),
+                             'attempt': kw.get('attempt'),
                              'inner': inner, 'outward': out, 'timed_out': res['k'] == 'timeout',
                              'observable': res['observable'],
                              'input': inp if isinstance(inp, (str, list)) and _jsonable(inp) else repr(inp)})
@@ -1252,7 +1320,7 @@ def run(ctx):
         r = byid[i]
         if clause in PROPERTY_CLAUSES:
             sig = {'class': PROPERTY_CLAUSES[clause], 'grader': r['cls'], 'input': r['input'], 'debug': r['debug'],
-                   'after': r.get('after'),
+                   'after': r.get('after'), 'attempt': r.get('attempt'),
                    'expect': r['expect'],
                    'category': r['cat'], 'inner': r['inner']['mro'][:1], 'outward': r['outward']['mro'][:1]}
             ctx.violation(sig, '%s on %s (debug=%s): inner %s, escaped %s [%s]' % (
@@ -1330,7 +1398,7 @@ def replay(ctx, rec):
         return not any(v.startswith('family') for v in rej.values())
     if sig.get('part') == 'anticipated':
         if sig['tokens'][0] in ('intervalOpen', 'intervalClose', 'sumVariable', 'listBlank', 'listLength',
-                                'stringPattern', 'stringShort') or sig['tokens'][0] in AT_ARRAY:
+                                'stringPattern', 'stringShort') or sig['tokens'][0] in AT_ARRAY or sig['tokens'][0] in AT_PADDED:
             g, inp, req = at_other(*sig['tokens'])
             subs = [(sig['to'], g, inp, req)]
         else:
@@ -1366,14 +1434,16 @@ def replay(ctx, rec):
             return False
         g, req, _, _ = real_graders(sig['debug'])[sig['grader']]
         inp = sig['input']
-        res = spy_call(g, sig.get('expect'), inp, 120)
+        res = spy_call(g, sig.get('expect'), inp, 120, **({'attempt': sig['attempt']} if sig.get('attempt') else {}))
         inferring = sig.get('expect') is not None
     else:
         c = {'gk': sig['kind'], 'form': sig['form'], 'debug': sig['debug'], 'n': sig['n'], 'v': sig['variant'],
-             'expect': sig['expect'], 'answers': sig['answers'], 'credit': sig['credit']}
+             'expect': sig['expect'], 'answers': sig['answers'], 'credit': sig['credit'], 'attempt': sig.get('attempt', 2)}
         ex = make_exc(sig['raised_inside'], sig['message']) if sig['raised_inside'] != 'none' and sig['at'] != 'post' else None
         g, expect, inp, kw, _ = build_case(c, None if sig['at'] == 'infer' else ex, ex if sig['at'] == 'infer' else None,
-                                           {'cls': sig['raised_inside'], 'src': sig.get('source', 'python')})
+                                           {'cls': sig['raised_inside'], 'src': sig.get('source', 'python')},
+                                           {'credited': sig['result'][0], 'rmsg': sig['result'][1]}
+                                           if sig.get('result', [None, None])[1] else None)
         req = REQ[sig['kind']]
         res = spy_call(g, expect, inp, 120, **kw)
         inferring = expect is not None
